@@ -390,6 +390,12 @@ fn driver_case(d: Drv, f: DFault, kind: TKind, variant: u64, seed: u64) -> CaseO
     }
     let desc = format!("[{} on {} fault {:?} variant {}]", d.name(), kind.name(), f, variant);
     let (rig, t) = xport_any::build(kind, d.device_type(), offered, cfg);
+    if f == DFault::ConfigExtreme {
+        if let Some(pv) = &rig.pci {
+            // a device that reports a queue_notify_off far beyond its notify capability
+            pv.borrow_mut().notify_off_override = Some(0xfff0);
+        }
+    }
     let dev = Rc::new(RefCell::new(CmdDev::new(&rig, d.queues(), Policy::Eager, seed)));
     drivers::install_auto_responder(d, &mut dev.borrow_mut());
     // wrap the responder with the response-level fault; completion-level faults are applied in the spin hook
@@ -551,6 +557,12 @@ fn driver_case(d: Drv, f: DFault, kind: TKind, variant: u64, seed: u64) -> CaseO
         out.panics += 1;
     }
     ledger_c07(&mut out.viol, &desc);
+    // an MMIO access outside every window the device exposes is an invalid memory access
+    for (r, dd) in rig.take_register_violations() {
+        if r == "access_outside_windows" || r == "config_access_outside_window" {
+            out.viol.push(DViol { prop: "C07", rule: "mmio_access_outside_device_windows", detail: format!("{} {}", dd, desc) });
+        }
+    }
     crate::mmio_bus::reset();
     out
 }
